@@ -35,7 +35,7 @@ namespace sim {
 const char* const fault_names[F_KIND_COUNT] = {
     "spurious_wakeup", "signal_choice", "timer_advance", "thread_create_fail", "alloc_fail",
     "short_read", "short_write", "eintr", "eio", "enospc", "emfile", "torn_input",
-    "fclose_fail", "dtype_unknown", "clock_jump", "preempt_mem", "cond_timeout"
+    "fclose_fail", "dtype_unknown", "clock_jump", "preempt_mem", "cond_timeout", "store_delayed_in_buffer"
 };
 
 enum TaskState { T_RUNNABLE, T_BLOCKED_MUTEX, T_BLOCKED_COND, T_BLOCKED_JOIN, T_FINISHED };
@@ -59,6 +59,10 @@ struct Task {
     void* arg = nullptr;
     void* ret = nullptr;
     bool detached = false;
+    // x86-TSO style FIFO store buffer: atomic stores with a memory order weaker than seq_cst wait here until the
+    // scheduler drains them (or the task executes a fence, a read-modify-write, a seq_cst store or a lock operation)
+    struct SbEntry { void* addr; int size; uint64_t v; };
+    std::vector<SbEntry> sb;
 };
 
 static const int MAX_TASKS = 300;
@@ -209,6 +213,17 @@ static void fatal(int status, const char* what) {
     _exit(99); // handler must not return
 }
 
+static void sb_drain_one(Task* t) {
+    Task::SbEntry e = t->sb.front(); t->sb.erase(t->sb.begin());
+    switch (e.size) {
+        case 1: __atomic_store_n((uint8_t*)e.addr, (uint8_t)e.v, __ATOMIC_RELAXED); break;
+        case 2: __atomic_store_n((uint16_t*)e.addr, (uint16_t)e.v, __ATOMIC_RELAXED); break;
+        case 4: __atomic_store_n((uint32_t*)e.addr, (uint32_t)e.v, __ATOMIC_RELAXED); break;
+        default: __atomic_store_n((uint64_t*)e.addr, (uint64_t)e.v, __ATOMIC_RELAXED); break;
+    }
+}
+static void sb_flush(Task* t) { while (!t->sb.empty()) sb_drain_one(t); }
+
 // The heart: called by the current task (holding the baton) at every scheduling point.
 // The current task may have just changed its own state to blocked/finished.
 static void schedule(int kind, uint64_t obj) {
@@ -249,6 +264,17 @@ static void schedule(int kind, uint64_t obj) {
                     break;
                 }
             }
+        }
+    }
+
+    // lock operations, thread creation/join/exit are full fences
+    if (kind >= Y_LOCK && kind <= Y_EXIT) sb_flush(me);
+    // delayed stores: maybe let one task's oldest buffered store reach memory now
+    {
+        int nb = 0; for (Task* t : g.tasks) if (!t->sb.empty()) nb++;
+        if (nb) {
+            uint32_t v = decide_p((uint32_t)nb + 1, g.cfg.sb_drain_prob);
+            if (v) { int k = 0; for (Task* t : g.tasks) if (!t->sb.empty() && ++k == (int)v) { sb_drain_one(t); g.st.sb_drained_by_scheduler++; log_event("sb-drain", t->id); break; } }
         }
     }
 
@@ -330,6 +356,44 @@ void atomic_event(const void* addr, int size, int kind) {
     if (g.acc_obs && (const char*)addr < g.acc_hi && (const char*)addr + size > g.acc_lo) g.acc_obs(tls_task, addr, size, kind != 0, true);
     // an atomic is a synchronisation point: always a scheduling point
     schedule(Y_ATOMIC, 0);
+    // read-modify-write operations and fences drain the task's own store buffer before they execute
+    if (kind >= 2) sb_flush(g.tasks[g.cur]);
+}
+int atomic_store(void* addr, int size, uint64_t v, int order) {
+    if (!simulating()) return 0;
+    State& g = *G;
+    g.st.mem_events++;
+    if (g.acc_obs && (const char*)addr < g.acc_hi && (const char*)addr + size > g.acc_lo) g.acc_obs(tls_task, addr, size, true, true);
+    schedule(Y_ATOMIC, 0);
+    Task* me = g.tasks[g.cur];
+    if (order == __ATOMIC_SEQ_CST) { sb_flush(me); return 0; }   // the caller performs the store now
+    me->sb.push_back({addr, size, v});
+    g.st.sb_buffered++; count_fault(F_STORE_DELAYED);
+    return 1;
+}
+int atomic_load(const void* addr, int size, int order, uint64_t* out) {
+    (void)order;
+    if (!simulating()) return 0;
+    State& g = *G;
+    g.st.mem_events++;
+    if (g.acc_obs && (const char*)addr < g.acc_hi && (const char*)addr + size > g.acc_lo) g.acc_obs(tls_task, addr, size, false, true);
+    schedule(Y_ATOMIC, 0);
+    Task* me = g.tasks[g.cur];
+    if (me->sb.empty()) return 0;
+    // own delayed stores are visible to the task itself: forward from the single containing entry, otherwise the
+    // overlapping stores have to reach memory first
+    const char* lo = (const char*)addr; const char* hi = lo + size;
+    int overlapping = 0; const Task::SbEntry* last = nullptr;
+    for (auto& e : me->sb) if ((const char*)e.addr < hi && (const char*)e.addr + e.size > lo) { overlapping++; last = &e; }
+    if (!overlapping) return 0;
+    if (overlapping == 1 && (const char*)last->addr <= lo && (const char*)last->addr + last->size >= hi) {
+        uint64_t v = last->v >> (8 * (lo - (const char*)last->addr));     // little-endian host
+        if (size < 8) v &= (1ull << (8 * size)) - 1;
+        *out = v; g.st.sb_forwarded++;
+        return 1;
+    }
+    sb_flush(me);
+    return 0;
 }
 
 // ---------------------------------------------------------------- tasks
@@ -383,6 +447,7 @@ void end() {
     State& g = *G;
     g.st.sim_ns = g.now;
     g.st.tasks = (int)g.tasks.size();
+    for (Task* t : g.tasks) sb_flush(t);
     g.active = false;
     for (Task* t : g.tasks) if (t->has_thread) { __real_pthread_join(t->th, nullptr); t->has_thread = false; }
     tls_task = -1;
@@ -662,5 +727,7 @@ void __sanitizer_cov_store4(uint32_t* a) { mem_event(a, 4, true); }
 void __sanitizer_cov_store8(uint64_t* a) { mem_event(a, 8, true); }
 void __sanitizer_cov_store16(__uint128_t* a) { mem_event(a, 16, true); }
 void sim_atomic_event(const void* a, int size, int kind) { atomic_event(a, size, kind); }
+int sim_atomic_store(void* a, int size, unsigned long long v, int order) { return atomic_store(a, size, v, order); }
+int sim_atomic_load(const void* a, int size, int order, unsigned long long* out) { uint64_t o = 0; int r = atomic_load(a, size, order, &o); *out = o; return r; }
 
 } // extern "C"
